@@ -24,7 +24,7 @@ RULE = (
     "case = (plan with clear_checkpoint, pause|suspend injection). Sweep over the 'nonresumable' corpus plan at every "
     "callback boundary + Hypothesis profile 'nonresumable'. Non-trivial: at least one cleanup clause had been entered "
     "and at least one run was open when the request arrived in the non-resumable section. Distinct = canonical JSON."
-    ' Generated requests are aimed at the m-th message after the clear_checkpoint (at_cmd); corpus plans nonresumable_toggles and in-plan pause variants are swept completely.'
+    ' Generated requests are aimed at the m-th message after the clear_checkpoint (at_cmd); corpus plans nonresumable_toggles, nonresumable_rejected_checkpoint (a checkpoint rejected inside an event bundle and swallowed by the plan does not make the section resumable) and in-plan pause variants are swept completely.'
 )
 ASSUMPTIONS = ["requests arrive at boundaries between event-loop callbacks"]
 
@@ -34,7 +34,7 @@ check_case = e1common.make_check(e1oracles.oracle_c10)
 def run(ctx):
     cases = list(
         corpus.single_request_cases(
-            ["nonresumable", "nonresumable_toggles", "pause_msg_nonresumable", "defer_msg_nonresumable"], ("pause", "suspend"), decisions=("resume",)
+            ["nonresumable", "nonresumable_toggles", "nonresumable_rejected_checkpoint", "pause_msg_nonresumable", "defer_msg_nonresumable"], ("pause", "suspend"), decisions=("resume",)
         )
     )
     ctx.sweep(cases, check_case)
